@@ -89,7 +89,8 @@ def generated(rep, thorough):
                 server_version=rng.choice(['8.0.36', '5.5.5-10.6.12-MariaDB', 'x', '']), connection_id=rng.choice([0, 1, 2 ** 32 - 1, rng.randrange(2 ** 32)]),
                 auth_plugin_data=bytes(rng.randrange(1, 256) for _ in range(8)), capabilities=set(sub),
                 character_set=rng.choice(list(M.MySQLCharacterSet)), states=set(rng.sample(states, rng.choice([0, 1, 3, len(states)]))),
-                auth_plugin_data_2=bytes(rng.randrange(1, 256) for _ in range(n2)) if plugin else None,
+                # without CLIENT_PLUGIN_AUTH (servers before 5.5.7) the second part is the 13 bytes of the protocol document
+                auth_plugin_data_2=bytes(rng.randrange(1, 256) for _ in range(n2 if plugin else 13)) if plugin or i % 2 else None,
                 auth_plugin_name=rng.choice(['mysql_native_password', 'caching_sha2_password', '']) if plugin else None))
         except Exception:  # pylint: disable=broad-except
             pass
